@@ -10,6 +10,8 @@ correspondence (model vs implementation):
   vwp   — `Profiles.validate` / `validateWithProfile` for known/unknown names x profile arguments x defaults
   prop  — `Property.valid` of properties parsed / constructed / set through the DOM, ordinary and @font-face
   sheet — `CSSStyleSheet.valid`, `rule.valid` of generated sheets (style, @font-face, @media, @page, other rules)
+  vt    — `PropertyValue(text).seq` / `.value` / `Property.value` of values put together from components and gap
+          pieces, under five preference settings (tools/harness/c13_valuetext.py, model Model/ValueText.lean)
 oracle (implementation only):
   spelling invariance (case, comments, whitespace), serialise->reparse stability, creation-path independence,
   CSS 2.1 reference grammars (keyword lists from Model/Css21Keywords.lean, single length / percentage / number /
@@ -24,6 +26,7 @@ import time
 
 from lib.framework import Check, enc, time_limit, TimeLimit, VERIF
 from gen import c13_profiles, relib
+from harness.c13_valuetext import ValueTextMixin
 
 FOLD_SPECIAL = 'İıſK'      # non-ASCII letters that re.I folds onto ASCII letters
 UNITS = ['em', 'ex', 'px', 'in', 'cm', 'mm', 'pt', 'pc']
@@ -388,13 +391,13 @@ def gen_nonmember(types, rng):
 
 
 # ----------------------------------------------------------------------------------------------
-class C13(Check):
+class C13(ValueTextMixin, Check):
     id = 'C13'
     props_module = 'CssVerif.Props.C13'
     driver_exe = 'drv_c13'
     sources = ('cssutils/profiles.py', 'cssutils/css/property.py', 'cssutils/css/cssstyledeclaration.py',
                'cssutils/css/cssstylerule.py', 'cssutils/css/cssstylesheet.py', 'cssutils/css/cssfontfacerule.py',
-               'cssutils/util.py', 'cssutils/serialize.py')
+               'cssutils/util.py', 'cssutils/serialize.py', 'cssutils/prodparser.py', 'cssutils/css/value.py')
     trusted_base = (
         'translator tools/gen/c13_profiles.py (reads profiles.py with ast, re-implements addProfiles/_expand_macros/'
         '_compile_regexes, parses every expanded pattern with CPython re._parser via tools/gen/relib.py); '
@@ -404,10 +407,17 @@ class C13(Check):
         'Re semantics (lean/CssVerif/Lib/Re.lean) = CPython sre on the supported subset: exercised here on all 148 '
         'registered patterns (acc correspondence)',
         'reference keyword lists lean/CssVerif/Model/Css21Keywords.lean typed from the CSS 2.1 Recommendation',
+        'hand-written model lean/CssVerif/Model/ValueText.lean of ProdParser.parse on the value grammar, _SorTokens, '
+        'PropertyValue._setCssText and do_css_PropertyValue(valuesOnly=True) (over the Out.append model of C06), tied '
+        'by the vt correspondence of this run; the derived four-state automaton of the grammar is part of that '
+        'transcription',
+        'reference colour grammar lean/CssVerif/Model/Css21Colors.lean typed from CSS 2.1 4.3.6 / 18.2 and CSS Color 3',
     )
     assumptions = (
-        'Property.value (the comment-free serialisation of the parsed value, K4) is an INPUT of the model; its '
-        'invariance under spelling and round trip is checked on the implementation only (oracle)',
+        'Property.value: the top level of a value (tokens -> items -> valuesOnly serialisation) is modelled '
+        '(Model/ValueText.lean) and tied by the vt correspondence; what a term production makes of its token(s) (item '
+        'type, cssText under the preferences, wellformed) is an INPUT of that model, measured on the implementation; '
+        'round-trip stability and comments inside a function are checked on the implementation only (oracle)',
         're.I = ASCII case folding on the generated alphabets; the four non-ASCII letters that CPython folds onto '
         'ASCII in Unicode mode (U+0130 U+0131 U+017F U+212A) and non-ASCII digits are an implementation-only stream '
         '(the patterns are compiled with re.ASCII since the fix; such values must be invalid)',
@@ -416,7 +426,9 @@ class C13(Check):
     rule = ('acc: every (profile, property) pattern x values sampled from its own Re AST, from other patterns, and '
             'mutations; vwp: known/unknown names x profile arguments x defaultProfiles settings; prop/sheet: generated '
             'sheets (style, @font-face, @media, @page, other rules; repeated names; priorities) parsed, constructed '
-            'and set through the DOM; oracle: 2-4 spellings per (property, value), round trip, typed values by '
+            'and set through the DOM; vt: values built from components (all term productions, operators, refused '
+            'tokens) x gap pieces (white-space forms, comments, nothing) x five preference settings; '
+            'oracle: 2-4 spellings per (property, value), round trip, typed values by '
             'construction. non-trivial = distinct (property, value text) whose verdict is True, or a near miss of a '
             'valid value, or a sheet with at least one invalid declaration')
 
@@ -462,7 +474,8 @@ class C13(Check):
         self.salt = getattr(self, 'salt', '')
         saved_default = self.P._defaultProfiles
         try:
-            for name in ('run_corpus', 'corr_acc', 'corr_vwp', 'corr_props_and_sheets', 'oracle_numbers_prefs',
+            for name in ('run_corpus', 'corr_acc', 'corr_vwp', 'corr_props_and_sheets', 'corr_value_text', 'oracle_vtab_direct',
+                         'oracle_numbers_prefs',
                          'oracle_moved_properties', 'oracle_spelling_roundtrip_paths', 'oracle_grammar',
                          'oracle_annotates', 'corr_valid_only', 'oracle_unicode_fold'):
                 ctx.phase(getattr(self, name), ctx)
@@ -1555,6 +1568,8 @@ class C13(Check):
         clause = data.get('clause') or ''
         if data.get('kind') != 'impl-violates':
             self.run(ctx)
+        elif self.vt_replay(ctx, clause, w):
+            pass
         elif 'move' in w:
             obs = self.move_case(w['move'][0], w['move'][1], w['name'], w['value'], w.get('replace', True))
             if obs is not None and (obs[0] != obs[1] or (obs[2][0] is not None and obs[0] != obs[2])):
